@@ -88,6 +88,8 @@ class Sim:
 
     # ---------------------------------------------------------------- assignment
     def assign(self, name, value):
+        if getattr(self, "dead", False):
+            return
         self.log.append(["assign", name, value])
         self.ctx.evaluation()
         v = self.v
@@ -184,6 +186,8 @@ class Sim:
 
     def inplace(self, opname, operand):
         """operand: ["vec", dim, sysname, cart, momentum] | ["scalar", value] | ["bad", kind]"""
+        if getattr(self, "dead", False):
+            return
         self.log.append(["inplace", opname, operand])
         self.ctx.evaluation()
         v = self.v
@@ -245,6 +249,12 @@ class Sim:
         except Exception as e:  # noqa: BLE001
             raised = e
         if raised is not None:
+            if self.mp and isinstance(raised, ZeroDivisionError):
+                # mpmath raises where the float64 library returns inf/nan: a singular intermediate value of the 60-digit
+                # tier, possibly in the middle of the conversion back - the rest of this history has no defined model
+                self.ctx.exclude("mp_singular")
+                self.dead = True
+                return
             if not self._unchanged(before, f"v {opname} {type(w).__name__}"):
                 return
             if valid and not isinstance(raised, ZeroDivisionError):
